@@ -46,6 +46,10 @@ func runC16(r *an.Run) {
 	c09Collection(r)
 	relabel(r, "R1-order-preserving-collection", "R10-every-listed-patch-is-loaded-or-reported")
 	partialLineAtEOF(r, "R10-every-listed-patch-is-loaded-or-reported")
+	// a patch that cannot be processed is reported: a '+' elision without a '-' counterpart is a compile error
+	// (connectDots looks at every '+' elision before it reports success, and compileChange records its error)
+	c04AssociationReported(r)
+	relabel(r, "R7-association-errors-reported", "R11-an-unprocessable-patch-is-reported")
 }
 
 var destructiveOpens = setOf("os.WriteFile", "os.Create", "os.OpenFile", "os.Truncate", "io/ioutil.WriteFile", "(*os.File).Truncate")
